@@ -57,6 +57,11 @@ func checkC09(w *World, r *Report) {
 	r.rule("C09.rmw", "swap! is a compare-and-set retry loop: value and version are read in one critical section, the update function is applied outside any lock, and the result is installed in a write-locked section only if the version still equals the one read; a failed comparison retries, and the retry loop polls the context")
 	r.rule("C09.version", "every store to Atom.Val of a shared atom is accompanied, in the same function, by an increment of Atom.version (otherwise a concurrent swap! cannot notice the update and overwrites it)")
 	guardRule(w, r, e, "C09.guard", w.guardRows()[0])
+	// "swap! ... installs and returns the result": swap!, reset! and deref reach programs through the binder's
+	// adapter closures, which must hand back what the operation returned
+	r.include("C09.builtin-", "C20.", "what swap!, reset! and deref return to the program is what the operation returned: a completed update is not reported as a failure", checkC20, func(rule string) bool {
+		return rule == "C20.verbatim" || rule == "C20.results"
+	})
 	fns := w.pkgFuncs("lib/concurrent")
 	n := pairRule(w, r, e, "C09.pair", fns)
 	r.floor("C09.pair", "lock acquisitions and releases in lib/concurrent", n, 6)
@@ -412,6 +417,9 @@ func checkRMW(w *World, r *Report, e *Engine) {
 					}
 				}
 			}
+		}
+		if hc, ok := apply.Call.Args[2].(*ssa.Call); ok && root == nil && allocatesResult(hc.Call.StaticCallee()) {
+			root = hc // a helper that hands back a list it allocated itself, called in the attempt
 		}
 		ri, isInstr := root.(ssa.Instruction)
 		if callA != nil && isInstr && ri.Parent() == swap {
@@ -1067,6 +1075,8 @@ func checkC11(w *World, r *Report) {
 	}
 	capturedStateRule(w, r, e, "C11.captured-state")
 	sharedStateRule(w, r, "C11.package-state")
+	objectWritesRule(w, r, e, "C11.object-writes")
+	tableEscapeRule(w, r, "C11.table-private")
 	// a future bound to a global is read by any number of evaluations: each must get the outcome it gets alone
 	r.include("C11.future-", "C10.", "an evaluation that only reads a shared global future returns what it returns alone: every reader gets the one outcome", checkC10, func(rule string) bool {
 		switch rule {
@@ -1903,4 +1913,29 @@ func derefContextRule(w *World, r *Report, rule string) {
 		}
 	}
 	r.floor(rule, "calls of Deref in the library", n, 1)
+}
+
+// allocatesResult: every return of the module function hands back storage the function allocated itself
+// (a slice literal, make, or append onto one of those): a new list on every call.
+func allocatesResult(fn *ssa.Function) bool {
+	if fn == nil || !inModule(fn) || len(fn.Blocks) == 0 || fn.Signature.Results().Len() != 1 {
+		return false
+	}
+	n := 0
+	for _, b := range fn.Blocks {
+		ret, ok := b.Instrs[len(b.Instrs)-1].(*ssa.Return)
+		if !ok {
+			continue
+		}
+		root := storageRoot(resolveRet(ret.Results[0]))
+		ri, isInstr := root.(ssa.Instruction)
+		if root == nil || !isInstr || ri.Parent() != fn {
+			return false
+		}
+		if al, isAlloc := root.(*ssa.Alloc); isAlloc && !al.Heap {
+			return false
+		}
+		n++
+	}
+	return n > 0
 }
